@@ -192,7 +192,7 @@ MUTANTS = [
      "note": "no effect in 11 direct probes on very tight fused specs (usage 0.8-0.9, r=0.5): rounding never moved a sum across 1.0. The validity half of C16 is weakly exercised at this scale; the resource-mode 'optimum below 1-r is retained' oracle was added after these runs"},
 ]
 MANIFEST = {
-    "level_text": "Metamorphic testing of map_workload_to_arch: each generated small spec is mapped exactly and with objective_tolerance and/or resource_usage_tolerance in {0.01, 0.1, 0.5}; with objective_tolerance alone the best returned objective must lie in [opt, (1+t) opt]; with resource_usage_tolerance every returned mapping must pass the detailed model's capacity check and none may beat the exact optimum. No counterexample in N pairs; not a proof.",
+    "level_text": "Metamorphic testing of map_workload_to_arch: each generated small spec (energies and throughputs multiplied by physical-unit factors, objective values 1e-13..1e9) is mapped exactly and with objective_tolerance and/or resource_usage_tolerance in {0.01, 0.1, 0.5}; with objective_tolerance alone the best returned objective must lie in [opt, (1+t) opt]; with resource_usage_tolerance every returned mapping must pass the detailed model's capacity check and none may beat the exact optimum. No counterexample in N pairs; not a proof.",
     "level_note": "1-2 Einsums, 2-3 memory levels, rank bounds <= 12 (one Einsum) / 6 (two); metrics ENERGY, LATENCY, EDP; validity via accelforge's detailed model (reported usage <= 1, no InvalidMappingError).",
     "technique": "property-based metamorphic testing of the mapper (Hypothesis)",
 }
